@@ -58,6 +58,7 @@ void sim_set_io_hook(sim_io_hook_t h, void *arg);   // called after every wrappe
 
 // ---- counting allocator (event_set_mem_functions) ------------------------------------
 void     sim_mem_install(void);               // once, before the library allocates anything
+void     sim_mem_free(void *p);               // free memory the library hands to the caller (evbuffer_readln, evhttp_uridecode, ...) once sim_mem_install() is active
 extern int64_t  sim_mem_live_blocks, sim_mem_live_bytes;
 extern uint64_t sim_mem_calls;                // allocation calls (malloc/realloc-grow/calloc) since sim_reset
 void     sim_mem_fail_at(uint64_t nth, int sticky);  // fail the nth allocation call from now (1-based); 0 = off
